@@ -852,9 +852,27 @@ import re as _re
 _FMT = _re.compile(r'%(?:\((\w+)\))?([-0 +#]*)(\d*)(?:\.(\d+))?([diuxXsrc%])')
 
 
+DRY = [False]      # dry rendering: check that text *can* be produced (types, argument counts) without forking on digit counts
+
+
+def dry_render(x):
+  """raise what Python would raise when rendering x to text; symbolic numerals are not expanded"""
+  if not isinstance(x, SymStr) or x.sb is not None: return
+  DRY[0] = True
+  try:
+    _render(x.opaque)
+  finally:
+    DRY[0] = False
+
+
 def _digits(v, base, upper=False):
   """char codes of the numeral of a non-negative (Sym)Int, most significant first; forks on the digit count"""
   if isinstance(v, SymBool): v = lift(v)
+  if DRY[0] and isinstance(v, SymInt): return [48]
+  if not isinstance(v, (int, SymInt)):
+    if hasattr(v, '__index__') and base == 16: v = v.__index__()
+    elif hasattr(v, '__int__') and base == 10: v = int(v)
+    else: raise TypeError("%%%s format: a real number is required, not %s" % ('x' if base == 16 else 'd', type(v).__name__))
   if not isinstance(v, SymInt):
     t = ('%x' if base == 16 else '%d') % v
     return [ord(c) for c in (t.upper() if upper else t)]
@@ -912,6 +930,21 @@ def _render(op):
         out += _chars(v)
       else: out += _chars(p)
     return out
+  if k == 'format':
+    import string
+    fmt, args, kwargs = op[1], op[2], op[3]
+    out = []; auto = 0
+    for lit, field, spec, conv in string.Formatter().parse(fmt):
+      out += [ord(c) for c in lit]
+      if field is None: continue
+      if spec: raise Inconclusive("str.format with a format spec on symbolic value")
+      name = field.split('.')[0].split('[')[0]
+      if name == '': v = args[auto]; auto += 1
+      elif name.isdigit(): v = args[int(name)]
+      else: v = kwargs[name]
+      if '.' in field or '[' in field: raise Inconclusive("str.format with attribute/index field")
+      out += _chars(v)
+    return out
   if k == '%':
     fmt, args = op[1], op[2]
     isb = isinstance(fmt, (bytes, SymBytes))
@@ -924,7 +957,9 @@ def _render(op):
       key, flags, width, prec, conv = m.groups()
       if conv == '%': out.append(37); continue
       if key is not None: a = args[key]
-      else: a = args[ai]; ai += 1
+      else:
+        if ai >= len(args): raise TypeError("not enough arguments for format string")
+        a = args[ai]; ai += 1
       w0 = int(width) if width else 0
       base_ = 16 if conv in 'xX' else 10
       if conv in 'diuxX' and '0' in flags and w0 and isinstance(a, SymInt) and a.lo >= 0 and a.hi < base_ ** w0:
@@ -943,6 +978,7 @@ def _render(op):
         else: cs = [48 if '0' in flags and conv in 'diuxX' else 32] * (w - len(cs)) + cs
       out += cs
     out += [ord(c) for c in f[pos:]]
+    if isinstance(args, tuple) and ai < len(args): raise TypeError("not all arguments converted during string formatting")
     return out
   raise Inconclusive("cannot render symbolic text of kind %r" % (k,))
 
@@ -956,6 +992,7 @@ class SymStr:
     self.sb = sb; self.opaque = opaque
   def _r(self):
     if self.sb is None:
+      if DRY[0]: return SymBytes(_render(self.opaque))
       self.sb = SymBytes(_render(self.opaque)); self.opaque = None
     return self.sb
   def _w(self, sb):
